@@ -20,6 +20,7 @@ type Case struct {
 	Variants []string
 	Mode     string
 	Print    bool
+	Entries  []string
 	Depth    int
 	Sizes    []int
 	Us       []string
